@@ -48,7 +48,8 @@ def py_timing(t):
 def py_tags(tags, kind):
     if tags is None:
         return None
-    strs = [f"t{t}" for t in tags]
+    # tag 5 is the empty string: a perfectly valid (falsy) tag
+    strs = ["" if t == 5 else f"t{t}" for t in tags]
     if kind in (None, "set"):
         return set(strs)
     if kind == "frozenset":
@@ -84,6 +85,7 @@ class _CountHandler(logging.Handler):
     def __init__(self):
         super().__init__(level=logging.DEBUG)
         self.records = []
+        self.seen_counters = []
 
     def createLock(self):
         # no real lock around emit: under the cooperative controller a real lock held across a controlled
@@ -92,6 +94,13 @@ class _CountHandler(logging.Handler):
 
     def emit(self, record):
         self.records.append(record)
+        # what a handler that looks at the job sees while the failure is being reported: (failed_attempts, attempts)
+        try:
+            j = record.args[0] if isinstance(record.args, tuple) and record.args else None
+            if j is not None and hasattr(j, "failed_attempts") and hasattr(j, "attempts") and record.levelno >= logging.ERROR:
+                self.seen_counters.append((j.failed_attempts, j.attempts))
+        except Exception:  # noqa: BLE001
+            pass
         # like every real handler (the default last-resort handler included): render the message, which evaluates
         # the `%r` of the job - and, through its arguments, whatever they reference; errors are swallowed as
         # logging.Handler.handleError would do
@@ -593,6 +602,7 @@ class ThrRunner:
         if "_visible" in obs:
             obs["jobs"] = {k: v for k, v in obs["jobs"].items() if k < obs["_visible"]}
         obs["logs"] = sum(1 for r in self.handler.records if r.levelno >= logging.ERROR)
+        obs["handler_saw"] = list(self.handler.seen_counters)
         return obs
 
     def float_exact(self, prio):
